@@ -9,6 +9,47 @@ namespace Amoco.Spec.Props
 
 open Amoco Amoco.Spec
 
+/-- **Central theorem.**  For every format the grammar admits (`GrammarOK`: the decidable
+    "the documentation judges this format" predicate — any length, both directions, every
+    directive kind, overlapping `=` fields, variable tails, names already bound in
+    `iattr`/`fargs`), `buildspec` **as coded** (list reversal for `<`, running index `i`, `count`,
+    the `=` overlap arithmetic, `(*)` sizing, the `redefined`/`out of bound`/`mismatch` tests)
+    succeeds and its fix, mask and extractors are the documented meaning (`refCells`, `refFields`:
+    written-order positions, direction aware).  Proof: `Amoco.Spec.buildspec_meaning_proof`
+    (processing-order form of the reference + loop invariant `bloop_inv`). -/
+theorem buildspec_meaning (a : Ast) (keysA keysF : List String)
+    (hok : GrammarOK a keysA keysF = true) :
+    ∃ s, buildspec a keysA keysF = .ok s ∧
+      s.fixSize = bitSize a ∧
+      s.fix = cellsFix (refCells a) ∧ s.mask = cellsMask (refCells a) ∧
+      s.exts.map Ext.toRField = refFields a ∧
+      s.size = a.size.getD 0 ∧ s.pfx = a.pfx ∧ s.xdata = a.xdata :=
+  buildspec_meaning_proof a keysA keysF hok
+
+-- non-vacuity: AVR-style `<` format with an overlapping `=` field (s re-reads the fixed bit
+-- written just before it) — the grammar admits it, and this is what `buildspec` returns
+example :
+    (parse "16<[ 1001 000=s d(5) 1100 ]").map (fun a => (GrammarOK a, (buildspec a).toOption)) =
+      some (true, some ({ size := 16, fixSize := 16, fix := 0x900c, mask := 0xfe0f, pfx := false,
+                          xdata := false,
+                          exts := [⟨false, "d", .int, 4, some 9, false⟩,
+                                 ⟨false, "s", .int, 9, some 10, false⟩] } : Spec)) := by decide
+
+-- non-vacuity: x86-style `>` variable-length format with a byte, fixed bits, a field and a tail
+example :
+    (parse "*>[ {0f} 1000 cc(4) ~data(*) ]").map (fun a => (GrammarOK a, (buildspec a).toOption)) =
+      some (true, some ({ size := 0, fixSize := 16, fix := 0x010f, mask := 0x0fff, pfx := false,
+                          xdata := false,
+                          exts := [⟨false, "cc", .int, 12, some 16, true⟩,
+                                 ⟨false, "data", .bits, 16, none, true⟩] } : Spec)) := by decide
+
+-- non-vacuity with names already bound: `.cond` goes to `iattr`, `cond` to `fargs`; same symbol in
+-- the two dictionaries is admitted, a symbol already in the *same* dictionary is not
+example :
+    (parse "8>[ .cond(4) cond(4) ]").map
+        (fun a => (GrammarOK a ["x"] ["y"], GrammarOK a ["cond"] [], (buildspec a ["x"] ["y"]).toOption.map (·.exts.length))) =
+      some (true, false, some 2) := by decide
+
 /-- A spec accepts a byte string iff it is long enough and every fixed bit of the instruction word
     (fetched with the given endianness) has the value the format fixes. -/
 theorem decode_accepts_iff (s : Spec) (istr : List Nat) (be : Bool) :
